@@ -76,3 +76,86 @@ func F7(prop string) {
 		ev.ReportKnown(prop, "F7")
 	}
 }
+
+// F10Reproduces: an empty primary key next to an alias is not a fixpoint.
+func F10Reproduces() bool {
+	p, err := pipeline.Parse(strings.NewReader("steps:\n  - command: x\n    key: ~\n    id: y\n"))
+	if err != nil || p == nil || len(p.Steps) != 1 {
+		return false
+	}
+	b, err := json.Marshal(p)
+	if err != nil {
+		return false
+	}
+	q, err := pipeline.Parse(strings.NewReader(string(b)))
+	if err != nil || len(q.Steps) != 1 {
+		return false
+	}
+	a, ok1 := p.Steps[0].(*pipeline.CommandStep)
+	c, ok2 := q.Steps[0].(*pipeline.CommandStep)
+	return ok1 && ok2 && a.Key != c.Key
+}
+
+func F10(prop string) {
+	if ev.Known("F10") && F10Reproduces() {
+		ev.ReportKnown(prop, "F10")
+	}
+}
+
+// F10Class reports whether a parsed step list contains the F10 input class.
+func F10Class(ss pipeline.Steps) bool {
+	for _, s := range ss {
+		switch t := s.(type) {
+		case *pipeline.CommandStep:
+			_, id := t.RemainingFields["id"]
+			_, ident := t.RemainingFields["identifier"]
+			_, name := t.RemainingFields["name"]
+			if t.Key == "" && (id || ident) || t.Label == "" && name {
+				return true
+			}
+		case *pipeline.GroupStep:
+			_, id := t.RemainingFields["id"]
+			_, ident := t.RemainingFields["identifier"]
+			if t.Key == "" && (id || ident) || F10Class(t.Steps) {
+				return true
+			}
+		}
+	}
+	return false
+}
+
+// LongDigitRun reports whether s contains 19 or more consecutive ASCII digits.
+func LongDigitRun(s string) bool {
+	run := 0
+	for i := 0; i < len(s); i++ {
+		if s[i] >= '0' && s[i] <= '9' {
+			run++
+			if run >= 19 {
+				return true
+			}
+		} else {
+			run = 0
+		}
+	}
+	return false
+}
+
+// F11Reproduces: yaml.v3's key sorter is non-transitive for overflowing digit runs.
+func F11Reproduces() bool {
+	seen := map[string]bool{}
+	for i := 0; i < 200 && len(seen) < 2; i++ {
+		m := map[string]any{"7": 1, "16": 2, "18446744073709551615x": 3, "a": 4, "b": 5, "c": 6, "d": 7, "e": 8, "f": 9}
+		b, err := yaml.Marshal(&pipeline.Pipeline{Steps: pipeline.Steps{&pipeline.CommandStep{Command: "x", RemainingFields: m}}})
+		if err != nil {
+			return false
+		}
+		seen[string(b)] = true
+	}
+	return len(seen) > 1
+}
+
+func F11(prop string) {
+	if ev.Known("F11") && F11Reproduces() {
+		ev.ReportKnown(prop, "F11")
+	}
+}
